@@ -192,7 +192,8 @@ Fixpoint words_of (bs : list Z) : list Z :=
   | [b0; b1] => [b0 + 256 * b1]
   | [b0; b1; b2] => [b0 + 256 * b1 + 65536 * b2]
   end.
-Definition is_byte (b : Z) : bool := (0 <=? b) && (b <? 256).
+(* the characters of X are ASCII (xhexnotes "Character set"); other bytes in a literal are unsupported *)
+Definition is_byte (b : Z) : bool := (0 <=? b) && (b <? 128).
 (* "length byte first": byte 0 of the packed string is its length *)
 Definition pack_string (bs : list Z) : option (list Z) :=
   if forallb is_byte bs && (Z.of_nat (List.length bs) <? 256)
@@ -438,7 +439,7 @@ Definition eval_body (ev : expr -> state -> res value)
   | EBool b => Ret (Vint (of_bool b)) s
   | EStr bs => match pack_string bs with
                | Some ws => Ret (Vstr ws) s
-               | None => Fail (Unsupported "string literal longer than 255 or with a non-byte")
+               | None => Fail (Unsupported "string literal longer than 255 or with a non-ASCII byte")
                end
   | EVar x => read_var ge x s
   | ESub a i =>
